@@ -135,7 +135,13 @@ func (f *verifKVFamily) NewFlusher() kv.Flusher {
 	return fl
 }
 func (fl *verifKVFlusher) StreamWriter() (table.StreamWriter, error) { return fl.w, nil }
+// verifCommitGate, when set, decides whether a commit still reaches the disk (crash points)
+var verifCommitGate func() bool
+
 func (fl *verifKVFlusher) Commit() error {
+	if verifCommitGate != nil && !verifCommitGate() {
+		return nil
+	}
 	for k, v := range fl.pending {
 		fl.fam.persisted[k] = append(fl.fam.persisted[k], v)
 	}
